@@ -302,11 +302,38 @@ namespace Avro
 whose tag has (`oe = true`) or has not `omitempty`:
 * nil and empty slices, maps and byte strings are identified (our `GoVal` already identifies nil and
   empty slices / byte strings; for maps the nil flag is set exactly when the map is empty), also
-  behind a pointer to a slice or map (`*[]T`, `*map`, whose schema is the plain array / map);
+  behind a chain of pointers to a slice or map (`*[]T`, `**[]T`, `***map…`, whose schema is the plain
+  array / map): a nil pointer at any level of such a chain and the chain to the empty collection are
+  identified (representative: the chain of non-nil pointers to the empty collection), with or
+  without omitempty; `*[]byte` is an ordinary pointer;
 * a zero value in an omitempty field reads back as the zero value (−0.0 becomes +0.0);
 * an invalid `null.*` wrapper carries no payload;
 * times compare by instant and UTC offset (the value itself).
-Everything else must come back unchanged. -/
+Everything else must come back unchanged.
+
+`dev` is a bit mask of recorded deviations of the real code (known findings), applied only to explain
+a mismatch: bit 0 = D27 (a non-nil pointer to an invalid `null.*` wrapper is written as the non-null
+branch and reads back valid), bit 1 = D30 (`**T`, not ending in a slice or map, with a nil inner
+pointer reads back as a nil outer pointer), bit 2 = D32 (a `time.Time` at the zero instant in a
+non-UTC zone — `IsZero()` ignores the zone — is omitted and reads back as `time.Time{}` in UTC,
+wherever the time codec's `Omit` decides, i.e. not directly behind a pointer and not inside a valid
+`null.Time`). -/
+
+/-- the type is a chain of pointers (possibly none) ending in a non-byte slice or a map: its
+generated schema is the plain array / map -/
+def GoType.collChain : GoType → Bool
+  | .slice e => !(e.strip matches .uint 8)
+  | .map _ _ => true
+  | .ptr e => GoType.collChain e
+  | _ => false
+
+/-- the representative of "nil somewhere in a pointer chain to a slice or map": non-nil pointers to
+the empty collection -/
+def GoType.emptyChain : GoType → GoVal
+  | .ptr e => .ptr (some (GoType.emptyChain e))
+  | .map _ _ => .map true [] []
+  | _ => .slice []
+
 def normSpecD (dev : Nat) : Nat → GoType → Bool → GoVal → GoVal
   | 0, _, _, g => g
   | fuel + 1, T, oe, g =>
@@ -315,23 +342,21 @@ def normSpecD (dev : Nat) : Nat → GoType → Bool → GoVal → GoVal
     | .float64, .f64 b => if oe && isZeroF64 b then .f64 0 else .f64 b
     | .slice e, .slice items => .slice (items.map (normSpecD dev fuel e false))
     | .map _ v, .map _ ks vs => .map ks.isEmpty ks (vs.map (normSpecD dev fuel v false))
-    | .ptr (.slice e), .ptr none => if e.strip matches .uint 8 then .ptr none else .ptr (some (.slice []))
-    | .ptr (.map _ _), .ptr none => .ptr (some (.map true [] []))
+    | .ptr e, .ptr none => if e.collChain then .ptr (some e.emptyChain) else .ptr none
     | .ptr e, .ptr (some x) =>
       let x' := normSpecD dev fuel e false x
-      if dev != 0 then
-        -- the two recorded deviations (known findings D27: dev odd, D30: dev ≥ 2), applied only to explain a mismatch
-        match e.strip, x', x with
-        | .ptr _, .ptr none, _ => if dev ≥ 2 then .ptr none else .ptr (some x')
-        | .nullT _, _, .nullw false p => if dev % 2 == 1 then .ptr (some (.nullw true p)) else .ptr (some x')
-        | _, _, _ => .ptr (some x')
-      else .ptr (some x')
+      match e.strip, x', x with
+      | .ptr _, .ptr none, _ => if dev / 2 % 2 == 1 && !e.collChain then .ptr none else .ptr (some x')
+      | .nullT _, _, .nullw false p => if dev % 2 == 1 then .ptr (some (.nullw true p)) else .ptr (some x')
+      | .time, _, _ => .ptr (some x)
+      | _, _, _ => .ptr (some x')
     | .struct _ _ fs, .struct gs =>
       .struct (List.zipWith (fun (f : GoField) g => normSpecD dev fuel f.type (omitEmptyTag f.jsonTag) g) fs gs)
     | .nullT k, .nullw false _ =>
       .nullw false (match k with
         | .int => .int 0 | .bool => .bool false | .double => .f64 0 | .float => .f64 0
         | .string => .str [] | .time => .time TimeVal.zero)
+    | .time, .time t => if dev / 4 % 2 == 1 && t.isZero then .time TimeVal.zero else .time t
     | _, g => g
 
 /-- The documented normalisations only. -/
